@@ -111,6 +111,79 @@ func runPair(c *ctx, id string, cfg runCfg, oldS, newS []Stmt, style sqlStyle) {
 	}
 }
 
+// runRoutes (C03): one schema loaded by two different routes must diff to nothing
+func runRoutes(c *ctx, id string, cfg runCfg, s *gSchema) {
+	routes := []string{"canonical", "grouped", "per-statement", "random-spelling", "own-dump"}
+	if cfg.dialect == "mysql" {
+		routes = append(routes, "explicit-using-btree", "inline-keys")
+	}
+	loadRoute := func(r string) (*sqlize.Sqlize, string) {
+		z := cfg.newSqlize()
+		plain := sqlStyle{dialect: cfg.dialect}
+		var e string
+		switch r {
+		case "canonical":
+			e = load(z, cfg, plain, s.script())
+		case "grouped":
+			e = load(z, cfg, plain, s.scriptGrouped())
+		case "per-statement":
+			e = loadCalls(z, plain, perStmt(s.scriptGrouped()))
+		case "random-spelling":
+			e = load(z, cfg, sqlStyle{dialect: cfg.dialect, rng: c.rng}, s.scriptGrouped())
+		case "own-dump":
+			t := cfg.newSqlize()
+			e = load(t, cfg, plain, s.scriptGrouped())
+			dump := guard(func() string { return t.StringUp() })
+			if cfg.dialect == "sqlite3" {
+				e = guard(func() string {
+					for _, part := range strings.Split(dump, ";") {
+						if strings.TrimSpace(part) == "" {
+							continue
+						}
+						if err := z.FromString(part + ";"); err != nil {
+							return "error:" + firstLine(err.Error())
+						}
+					}
+					return "ok"
+				})
+			} else {
+				e = guard(func() string {
+					if err := z.FromString(dump); err != nil {
+						return "error:" + firstLine(err.Error())
+					}
+					return "ok"
+				})
+			}
+		case "explicit-using-btree":
+			ss := s.scriptGrouped()
+			for i := range ss {
+				if ss[i].Kind == "createIndex" {
+					ss[i].Using = "BTREE"
+				}
+			}
+			e = load(z, cfg, plain, ss)
+		case "inline-keys":
+			e = guard(func() string {
+				if err := z.FromString(plain.scriptInlineKeys(s.scriptGrouped())); err != nil {
+					return "error:" + firstLine(err.Error())
+				}
+				return "ok"
+			})
+		}
+		return z, e
+	}
+	r1 := routes[c.rng.Intn(len(routes))]
+	r2 := routes[c.rng.Intn(len(routes))]
+	a, e1 := loadRoute(r1)
+	b, e2 := loadRoute(r2)
+	ed := guard(func() string { b.Diff(*a); return "ok" })
+	up := guard(func() string { return b.StringUp() })
+	down := guard(func() string { return b.StringDown() })
+	c.emit(id, "routes", cfg.sexp(), q(r1), q(r2), stmtsSexp(s.scriptGrouped()), q(e1+","+e2+","+ed), q(up), q(down))
+	c.count("route_" + r1)
+	c.count("route_" + r2)
+}
+
 func suitePair(c *ctx) {
 	n := 1500
 	if c.tier == "thorough" {
@@ -127,7 +200,7 @@ func suitePair(c *ctx) {
 		}
 		cfg := runCfg{dialect: dialect, lower: c.rng.Intn(2) == 0, ignore: c.rng.Intn(4) == 0}
 		g := &gen{rng: c.rng, dialect: dialect}
-		so := schemaOpts{maxTables: 1 + c.rng.Intn(3), maxCols: 1 + c.rng.Intn(5), indexes: c.rng.Intn(3) != 0, fks: c.rng.Intn(3) == 0}
+		so := schemaOpts{maxTables: 1 + c.rng.Intn(3), maxCols: 1 + c.rng.Intn(5), indexes: c.rng.Intn(3) != 0, fks: c.rng.Intn(2) == 0}
 		old := g.schema(so)
 		mo := mutateOpts{schemaOpts: so, edits: c.rng.Intn(6), retype: true, reopt: true, redefineIndex: true, dropTables: true}
 		nw := g.mutate(old, mo, c)
@@ -143,6 +216,9 @@ func suitePair(c *ctx) {
 			c.count("route_grouped")
 		}
 		runPair(c, fmt.Sprintf("p%d", i), cfg, os, ns, style)
+		if i%3 == 0 {
+			runRoutes(c, fmt.Sprintf("rt%d", i), cfg, old)
+		}
 	}
 }
 
